@@ -168,6 +168,134 @@ pub fn segment_faults(s: &str, f: &mut dyn FnMut(&str)) {
     }
 }
 
+/// Two faults at once: every truncation point combined with a structural character inserted at
+/// a few random offsets; for JSON, a dropped object member combined with a number made huge; and a
+/// seeded sample of arbitrary pairs of single character-level faults.
+pub fn pair_faults(s: &str, rng: &mut Rng, f: &mut dyn FnMut(&str)) {
+    const STRUCT: [char; 12] = ['[', ']', '{', '}', '(', ')', ':', ';', '=', ',', '"', 'é'];
+    let bounds: Vec<usize> = s.char_indices().map(|x| x.0).chain(std::iter::once(s.len())).collect();
+    // truncation x structural insertion
+    for &t in &bounds {
+        let prefix = &s[..t];
+        let pb: Vec<usize> = prefix.char_indices().map(|x| x.0).chain(std::iter::once(prefix.len())).collect();
+        for c in STRUCT {
+            for _ in 0..3 {
+                let at = pb[rng.usize_below(pb.len())];
+                let m = format!("{}{}{}", &prefix[..at], c, &prefix[at..]);
+                f(&m);
+            }
+        }
+    }
+    // deletion of one structural character x insertion of another one somewhere else
+    let structural: Vec<(usize, char)> = s.char_indices().filter(|(_, c)| STRUCT.contains(c)).collect();
+    for (i, c) in &structural {
+        let without = format!("{}{}", &s[..*i], &s[*i + c.len_utf8()..]);
+        let wb: Vec<usize> = without.char_indices().map(|x| x.0).chain(std::iter::once(without.len())).collect();
+        for c2 in STRUCT {
+            let at = wb[rng.usize_below(wb.len())];
+            let m = format!("{}{}{}", &without[..at], c2, &without[at..]);
+            f(&m);
+        }
+    }
+    // JSON: dropped member x huge number
+    if let Ok(v) = serde_json::from_str::<Value>(s) {
+        let mut paths: Vec<Vec<String>> = Vec::new();
+        collect_paths(&v, &mut Vec::new(), &mut paths);
+        let members: Vec<Vec<String>> = paths.iter().filter(|p| p.last().map(|x| x.parse::<usize>().is_err()).unwrap_or(false)).cloned().collect();
+        let numbers: Vec<Vec<String>> = paths.iter().filter(|p| get_path(&v, p).map(|x| x.is_number()).unwrap_or(false)).cloned().collect();
+        for drop in members.iter().take(40) {
+            for num in numbers.iter().take(40) {
+                if num.starts_with(drop) {
+                    continue;
+                }
+                for huge in [u64::MAX, u64::MAX / 2, 1u64 << 62] {
+                    let mut m = v.clone();
+                    set_path(&mut m, num, json!(huge));
+                    remove_path(&mut m, drop);
+                    f(&m.to_string());
+                }
+            }
+        }
+    }
+    // arbitrary pairs of single faults
+    let alpha = alphabet();
+    for _ in 0..(40 * bounds.len()).min(20_000) {
+        let mut m: Vec<char> = s.chars().collect();
+        for _ in 0..2 {
+            if m.is_empty() {
+                break;
+            }
+            let pos = rng.usize_below(m.len());
+            match rng.below(3) {
+                0 => {
+                    m.remove(pos);
+                }
+                1 => m[pos] = *rng.pick(&alpha),
+                _ => m.insert(pos, *rng.pick(&alpha)),
+            }
+        }
+        let t: String = m.into_iter().collect();
+        f(&t);
+    }
+}
+
+fn collect_paths(v: &Value, cur: &mut Vec<String>, out: &mut Vec<Vec<String>>) {
+    match v {
+        Value::Object(o) => {
+            for (k, x) in o {
+                cur.push(k.clone());
+                out.push(cur.clone());
+                collect_paths(x, cur, out);
+                cur.pop();
+            }
+        }
+        Value::Array(a) => {
+            for (i, x) in a.iter().enumerate() {
+                cur.push(i.to_string());
+                out.push(cur.clone());
+                collect_paths(x, cur, out);
+                cur.pop();
+            }
+        }
+        _ => {}
+    }
+}
+
+fn get_path<'a>(v: &'a Value, path: &[String]) -> Option<&'a Value> {
+    let mut cur = v;
+    for p in path {
+        cur = match cur {
+            Value::Array(a) => a.get(p.parse::<usize>().ok()?)?,
+            Value::Object(o) => o.get(p)?,
+            _ => return None,
+        };
+    }
+    Some(cur)
+}
+
+fn remove_path(v: &mut Value, path: &[String]) {
+    if path.is_empty() {
+        return;
+    }
+    let mut cur = v;
+    for p in &path[..path.len() - 1] {
+        cur = match cur {
+            Value::Array(a) => match p.parse::<usize>().ok().and_then(|i| a.get_mut(i)) {
+                Some(x) => x,
+                None => return,
+            },
+            Value::Object(o) => match o.get_mut(p) {
+                Some(x) => x,
+                None => return,
+            },
+            _ => return,
+        };
+    }
+    if let Value::Object(o) = cur {
+        o.remove(&path[path.len() - 1]);
+    }
+}
+
 // hang watchdog -------------------------------------------------------------------------------
 
 struct Slot {
@@ -366,6 +494,10 @@ pub fn c18(tier: Tier, seed: u64) -> i32 {
                 n_mut += 1;
             });
             segment_faults(enc, &mut |m| {
+                run(entry, f, m, &mut part, &mut per_entry);
+                n_mut += 1;
+            });
+            pair_faults(enc, &mut Rng::derive(seed ^ 0x18aa, si as u64), &mut |m| {
                 run(entry, f, m, &mut part, &mut per_entry);
                 n_mut += 1;
             });
@@ -736,6 +868,41 @@ fn structural(c: &Content, f: &mut dyn FnMut(String, &'static str)) {
                 set_path(&mut m, &path, new.clone());
                 m["checksum"] = if cv == "null" { Value::Null } else { json!(cv) };
                 f(m.to_string(), "checksum-variant+edit");
+            }
+        }
+    }
+    // digits moved between adjacent header numbers (a checksum over an ambiguous concatenation of
+    // the fields would not notice)
+    {
+        let names = ["price", "visible_quantity", "hidden_quantity", "order_count"];
+        for w in 0..3 {
+            let a = v["snapshot"][names[w]].as_u64().unwrap_or(0).to_string();
+            let b = v["snapshot"][names[w + 1]].as_u64().unwrap_or(0).to_string();
+            for k in 1..=3usize {
+                // a gives its last k digits to the front of b
+                if a.len() > k {
+                    let (na, nb) = (a[..a.len() - k].to_string(), format!("{}{}", &a[a.len() - k..], b));
+                    if let (Ok(x), Ok(y)) = (na.parse::<u64>(), nb.parse::<u64>()) {
+                        if x.to_string() == na && y.to_string() == nb {
+                            let mut m = v.clone();
+                            m["snapshot"][names[w]] = json!(x);
+                            m["snapshot"][names[w + 1]] = json!(y);
+                            f(m.to_string(), "digits-moved-between-fields");
+                        }
+                    }
+                }
+                // b gives its first k digits to the end of a
+                if b.len() > k {
+                    let (na, nb) = (format!("{}{}", a, &b[..k]), b[k..].to_string());
+                    if let (Ok(x), Ok(y)) = (na.parse::<u64>(), nb.parse::<u64>()) {
+                        if x.to_string() == na && y.to_string() == nb {
+                            let mut m = v.clone();
+                            m["snapshot"][names[w]] = json!(x);
+                            m["snapshot"][names[w + 1]] = json!(y);
+                            f(m.to_string(), "digits-moved-between-fields");
+                        }
+                    }
+                }
             }
         }
     }
